@@ -2,6 +2,7 @@
 
 Spec: {"n": pool size, "chans": [...], "ops": [[op, i, j], ...]}
   ops: reg(c, p)   (c fully detached, no unregistration pending; p outside c's subtree)
+       fire_inst(c, t)  probe fired on c and addressed to the component instance t (wherever t is)
        unreg(c)    (c attached; nothing is ticked: several may be issued before any tick, nested subtrees included)
        fire(c)     (probe to '*', on attached and detached components alike)
        tick(c, k)  (k ticks of the current root of c)
@@ -36,7 +37,7 @@ class C07(Prop):
         driver.quiet_process()
 
     def strategy(self, tier):
-        op = st.tuples(st.sampled_from(['reg', 'reg', 'reg', 'unreg', 'unreg', 'unreg_nested', 'fire', 'fire_detached', 'fire_detached', 'tick', 'tick', 'tick', 'tick', 'unreg_again', 'fire_then_reg', 'fire_then_reg']),
+        op = st.tuples(st.sampled_from(['reg', 'reg', 'reg', 'unreg', 'unreg', 'unreg_nested', 'fire', 'fire_detached', 'fire_detached', 'tick', 'tick', 'tick', 'tick', 'unreg_again', 'fire_then_reg', 'fire_then_reg', 'fire_inst', 'fire_inst']),
                        st.integers(0, 11), st.integers(0, 11)).map(list)
         return st.fixed_dictionaries({
             'n': st.integers(3, 6),
@@ -119,6 +120,7 @@ class C07(Prop):
         attached_pending = set()
         tagc = [0]
         again = [0]
+        inst_outside = [0]
         crossed_from = {}   # tag -> idx of the detached root it was queued on before the register
         crossed = set()     # tags queued on a detached component that was registered later
         queued_on = {}      # tag -> idx of the detached root it was queued on
@@ -208,6 +210,14 @@ class C07(Prop):
                             c.unregister()
                             unreg_started[c.idx] = unreg_started.get(c.idx, 0) + 1
                             attached_pending.add(c.idx)
+                    elif op == 'fire_inst':
+                        # a probe addressed to a component INSTANCE (not a channel name), which may sit in another tree
+                        # or have left this one: only the tree of the firing component may receive it
+                        tagc[0] += 1
+                        tgt = pool[j % n]
+                        if tgt.root is not c.root:
+                            inst_outside[0] += 1
+                        c.fire(probe(tagc[0]), tgt)
                     elif op == 'fire':
                         tagc[0] += 1
                         r = top(c)
@@ -323,6 +333,8 @@ class C07(Prop):
             classes.append('unregistration-never-completed')
         if again[0]:
             classes.append('unregister-while-pending')
+        if inst_outside[0]:
+            classes.append('probe-addressed-to-instance-outside-the-tree')
         return Result(True, nontrivial=bool((nested or rereg) and crossed), classes=classes)
 
 
